@@ -739,6 +739,198 @@ static void excl_one(const ExclTopo &t, int arr, int only, Batch &out) {
   }
 }
 
+// ------------------------------------------------------------------ part prochist: process histories
+// A history = an ordered sequence of searches in ONE process, every search on FRESH Topology / BeadList / list objects.
+// Anything a search leaves behind in the process (static / thread_local caches, globals) is the only way an earlier search
+// can influence a later one.  One forked child per history; --case carries the whole history.  The LAST search of a history
+// is compared with the absolute brute-force reference (never with another object of the same process); the earlier searches
+// only run (every prefix is itself the end of a shorter history of the enumeration).
+struct PScene { Box box; double cut; bool inrange; std::string sig; };
+static std::vector<PScene> proc_scenes() {
+  std::vector<PScene> sc;
+  auto add = [&](const Box &b, double cut) {
+    PScene p; p.box = b; p.cut = cut; p.inrange = cut < 0.5 * (double)b.hmin();
+    auto n = ref_cells(b, cut);
+    p.sig = std::string(b.diagonal() ? "o" : "t") + std::to_string(std::min(n[0], 3)) + std::to_string(std::min(n[1], 3)) + std::to_string(std::min(n[2], 3));
+    sc.push_back(p);
+  };
+  // orthorhombic, cutoff 1: edges 1.6 / 2.5 / 3.5 = 1 / 2 / 3 cells -> all 27 signatures of {1,2,>=3} per axis
+  // (a 1-cell axis needs cutoff > L/2, i.e. outside the statement's cutoff range: such scenes only serve as history prefixes)
+  for (double x : {1.6, 2.5, 3.5}) for (double y : {1.6, 2.5, 3.5}) for (double z : {1.6, 2.5, 3.5}) { Box b; b.ax = x; b.by = y; b.cz = z; add(b, 1.0); }
+  auto tri = deep_triclinic();
+  add(tri[0], 0.49 * (double)tri[0].hmin()); add(tri[0], 0.33 * (double)tri[0].hmin());
+  add(tri[2], 0.49 * (double)tri[2].hmin()); add(tri[2], 0.30 * (double)tri[2].hmin());
+  return sc;
+}
+// bead set of a scene: a periodic lattice with spacing ~0.8-0.9 cutoff along every box direction (so every bead has a neighbour within the cutoff
+// across every cell-layer boundary and across every periodic face), slightly skewed, some beads moved by whole box vectors (negative / outside)
+struct PWorld {
+  std::unique_ptr<World> W;
+  BeadList all, la, lb, lc, ly;
+  int n = 0;
+  PWorld(const PScene &s) {
+    auto h = s.box.heights();
+    int m[3];
+    for (int k = 0; k < 3; k++) m[k] = std::min(4, std::max(2, (int)floorl(h[k] / (0.8L * s.cut))));
+    n = m[0] * m[1] * m[2];
+    std::vector<std::string> types, names;
+    const char *ty[3] = {"A", "B", "C"};
+    for (int i = 0; i < n; i++) { types.push_back(ty[i % 3]); names.push_back(i % 3 == 0 ? "X" : "Y"); }
+    W.reset(new World(types, names));
+    W->top.setBox(s.box.mat());
+    int i = 0;
+    for (int x = 0; x < m[0]; x++) for (int y = 0; y < m[1]; y++) for (int z = 0; z < m[2]; z++, i++) {
+      D3 f = {(x + 0.13 + 0.011 * y) / m[0], (y + 0.07 + 0.013 * z) / m[1], (z + 0.21 + 0.007 * x) / m[2]};
+      if (i % 4 == 1) f[2] -= 1.0;
+      if (i % 5 == 2) f[0] += 1.0;
+      if (i % 7 == 3) { f[1] -= 1.0; f[2] -= 2.0; }
+      W->setpos(i, s.box.place(f));
+    }
+    all.Generate(W->top, "*"); la.Generate(W->top, "A"); lb.Generate(W->top, "B"); lc.Generate(W->top, "C"); ly.Generate(W->top, "name:Y");
+  }
+};
+// run the grid searches of a scene without looking at the result (history prefix)
+static void proc_prefix_search(const PScene &s, bool thorough) {
+  PWorld P(s);
+  try {
+    { NBListGrid nb; nb.setCutoff(s.cut); nb.Generate(P.all, false); }
+    { NBListGrid nb; nb.setCutoff(s.cut); nb.Generate(P.la, P.ly, false); }
+    { NBList nb; nb.setCutoff(s.cut); nb.Generate(P.all, false); }
+    if (thorough) {
+      { NBListGrid_3Body nb; nb.setCutoff(s.cut); nb.Generate(P.all, false); }
+      { NBListGrid_3Body nb; nb.setCutoff(s.cut); nb.Generate(P.la, P.ly, false); }
+      { NBListGrid_3Body nb; nb.setCutoff(s.cut); nb.Generate(P.la, P.lb, P.lc, false); }
+    }
+  } catch (const std::exception &) {
+    // a cutoff outside the stated range may legitimately be refused
+  }
+}
+// variants of the asserted search: 0 grid-1list, 1 grid-2list, 2 nblist-1list (control), 3 nblist-2list (control), 4 grid3-1type, 5 grid3-2type, 6 grid3-3type, 7 nb3-1type (control)
+static const int PH_PV[4] = {GRID1, GRID2, NB1, NB2};
+static const int PH_TV[4] = {T_GRID1, T_GRID2, T_GRID3, T_NB1};
+static std::string ph_case(bool thorough, const std::vector<int> &seq, int var) {
+  std::string s = std::string("ph;t=") + (thorough ? "1" : "0") + ";seq=";
+  for (size_t i = 0; i < seq.size(); i++) s += (i ? "," : "") + std::to_string(seq[i]);
+  if (var >= 0) s += ";var=" + std::to_string(var);
+  return s;
+}
+static void proc_history(const std::vector<PScene> &sc, const std::vector<int> &seq, bool thorough, int only, Batch &out) {
+  for (size_t k = 0; k + 1 < seq.size(); k++) proc_prefix_search(sc[seq[k]], thorough);
+  const PScene &s = sc[seq.back()];
+  if (!s.inrange) return;  // nothing is demanded for this cutoff
+  std::string prefix;
+  for (size_t k = 0; k + 1 < seq.size(); k++) prefix += (k ? "+" : "") + sc[seq[k]].sig;
+  std::string hcls = "last-" + s.sig + (prefix.empty() ? "-alone" : "-after-" + prefix);
+  std::string where = "  [process history:";
+  for (size_t k = 0; k < seq.size(); k++) {
+    auto n = ref_cells(sc[seq[k]].box, sc[seq[k]].cut);
+    where += std::string(k ? " ->" : "") + " search " + std::to_string(k + 1) + " " + sc[seq[k]].box.pretty() + " cutoff=" + bsx::fmt(sc[seq[k]].cut) + " cells " + std::to_string(n[0]) + "x" + std::to_string(n[1]) + "x" + std::to_string(n[2]);
+  }
+  where += "; every search on fresh Topology/BeadList/list objects; the last one is compared with the brute force]";
+  PWorld P(s);
+  int n = P.n;
+  std::vector<std::vector<PairExp>> pe(n, std::vector<PairExp>(n));
+  for (int i = 0; i < n; i++)
+    for (int j = 0; j < n; j++) {
+      if (i == j) continue;
+      pe[i][j].mi = minimg(s.box, P.W->pos(i), P.W->pos(j));
+      pe[i][j].within = pe[i][j].mi.d < s.cut;
+      pe[i][j].st = fabsl(pe[i][j].mi.d - s.cut) <= NEAR ? MAY : (pe[i][j].mi.d < s.cut ? MUST : MUSTNOT);
+    }
+  auto pexp = [&](long i, long j) { return pe[i][j]; };
+  auto texp = [&](long c, long j, long k) {
+    St a = pe[c][j].st, b = pe[c][k].st;
+    if (a == MUSTNOT || b == MUSTNOT) return MUSTNOT;
+    if (a == MAY || b == MAY) return MAY;
+    return MUST;
+  };
+  int nvar = thorough ? 8 : 3;
+  for (int v = 0; v < nvar; v++) {
+    if (only >= 0 && only != v) continue;
+    out.evals++;
+    if (v < 4) {
+      int pv = PH_PV[v];
+      bool one = pv == NB1 || pv == GRID1;
+      PairCheck pc = run_pair_variant(*P.W, s.box, s.cut, pv, one ? P.all : P.la, P.ly, false, pexp);
+      if (!pc.ok) out.fail(std::string("prochist-") + pvname[pv] + "-" + pc.key + "-" + hcls, pc.what + where, ph_case(thorough, seq, v));
+      else { out.cls.insert(bsx::fnv("ph|" + std::to_string(v) + "|" + s.sig + "|" + pc.sig)); out.counters["prochist_pairs_reported"] += pc.callbacks; }
+    } else {
+      int tv = PH_TV[v - 4];
+      int nt = tv / 2 + 1;
+      TripleCheck tc = run_triple_variant(*P.W, s.cut, tv, nt == 1 ? P.all : P.la, nt == 2 ? P.ly : P.lb, P.lc, texp);
+      if (!tc.ok) out.fail(std::string("prochist-") + tvname[tv] + "-" + tc.key + "-" + hcls, tc.what + where, ph_case(thorough, seq, v));
+      else { out.cls.insert(bsx::fnv("pht|" + std::to_string(v) + "|" + s.sig + "|" + tc.sig)); out.counters["prochist_triples_reported"] += tc.stored; }
+    }
+  }
+  if (only < 0 && out.fails.empty() && seq.size() >= 2 && seq[0] % 7 == 2 && seq.back() % 5 == 4)
+    out.samples.push_back("history " + hcls + " (" + std::to_string(n) + " beads in the last search): " + std::to_string(out.counters["prochist_pairs_reported"]) + " pair deliveries" +
+                          (thorough ? ", " + std::to_string(out.counters["prochist_triples_reported"]) + " stored triples" : "") + " over " + std::to_string(nvar) + " variants, all equal to the brute-force reference");
+}
+static std::vector<std::vector<int>> proc_histories(const std::vector<PScene> &sc, bool thorough) {
+  std::vector<std::vector<int>> H;
+  int n = (int)sc.size();
+  for (int l = 0; l < n; l++) {
+    if (!sc[l].inrange) continue;
+    H.push_back({l});
+    for (int i = 0; i < n; i++) H.push_back({i, l});
+  }
+  if (thorough)
+    for (int l = 0; l < n; l++) {
+      if (!sc[l].inrange) continue;
+      for (int i = 0; i < n; i++) for (int j = 0; j < n; j++) H.push_back({i, j, l});
+    }
+  return H;
+}
+static int run_prochist(const bsx::Args &a) {
+  bool thorough = a.tier == "thorough";
+  std::vector<PScene> sc = proc_scenes();
+  if (a.has_case) {
+    auto m = bsx::kvs(a.cas);
+    std::vector<int> seq;
+    for (auto &t : bsx::split(m["seq"], ',')) seq.push_back(atoi(t.c_str()));
+    Batch out;
+    proc_history(sc, seq, m["t"] == "1", m.count("var") ? atoi(m["var"].c_str()) : -1, out);  // this process IS the history's process
+    if (out.fails.empty()) { printf("case holds\n"); return 0; }
+    printf("case FAILS: key=%s %s\n", out.fails[0].key.c_str(), out.fails[0].what.c_str());
+    return 3;
+  }
+  std::vector<std::vector<int>> H = proc_histories(sc, thorough);
+  bsx::Report R;
+  R.property = "C03"; R.part = "prochist"; R.tier = a.tier;
+  R.max_samples = 6;
+  int nin = 0;
+  for (auto &s : sc) nin += s.inrange;
+  R.rule = "process histories: ordered sequences of 1, 2" + std::string(thorough ? " and 3" : "") + " searches in ONE forked process per history, every search on fresh Topology/BeadList/list objects, over " +
+           std::to_string(sc.size()) + " scenes: orthorhombic edges {1.6,2.5,3.5}^3 at cutoff 1 = all 27 signatures of {1,2,>=3} grid cells per axis, plus 2 reduced triclinic boxes at 2 cutoffs each; bead set = periodic lattice "
+           "(spacing 0.8-0.9 cutoff along every box direction, 8..64 beads, some moved by whole box vectors), types A,B,C. Earlier searches run NBListGrid (1 and 2 lists), NBList" + std::string(thorough ? ", NBListGrid_3Body (1,2,3 types)" : "") +
+           " unchecked; the LAST search of every history whose last scene has cutoff < half the shortest height (" + std::to_string(nin) + " scenes; a 1-cell axis implies a cutoff outside the stated range) is compared with the absolute "
+           "brute-force minimum-image reference: " + std::string(thorough ? "NBListGrid 1/2 lists, NBList 1/2 lists (control), NBListGrid_3Body 1/2/3 types, NBList_3Body 1 type (control)" : "NBListGrid 1/2 lists, NBList 1 list (control)") +
+           ": exact pair/triple set, each pair delivered and stored once, vectors and distances. --case replays the whole history in a fresh process. distinct_nontrivial = distinct (variant, last scene, reported set)";
+  R.assumptions = {"searches whose cutoff is not below half the shortest box height (every scene with a 1-cell axis) are only history prefixes: the statement demands nothing for them, an exception there is tolerated",
+                   "only the last search of a history is asserted; each prefix is itself the asserted end of a shorter history of the same enumeration"};
+  for (long long i = 0; i < (long long)H.size(); i++) {
+    if (!a.mine(i)) continue;
+    const std::vector<int> &seq = H[i];
+    // one forked child per history
+    bsx::contained(
+        0, 1, [&](long long) { bsx::Outcome o; Batch b; proc_history(sc, seq, thorough, -1, b); o.extra = b.ser(); return o; },
+        [&](long long, const bsx::Outcome &o) {
+          R.counters["histories_len" + std::to_string(seq.size())]++;
+          if (!o.ok) {
+            std::string prefix;
+            for (size_t k = 0; k + 1 < seq.size(); k++) prefix += (k ? "+" : "") + sc[seq[k]].sig;
+            R.eval();
+            R.fail("prochist-crash-last-" + sc[seq.back()].sig + (prefix.empty() ? "-alone" : "-after-" + prefix), "a search of the history crashed: " + o.what, ph_case(thorough, seq, -1));
+            return;
+          }
+          Batch::merge(o.extra, R);
+        },
+        300);
+  }
+  if (!R.write(a.out)) { fprintf(stderr, "cannot write %s\n", a.out.c_str()); return 2; }
+  return 0;
+}
+
 // ------------------------------------------------------------------ --case
 static int run_case(const std::string &cas) {
   auto m = bsx::kvs(cas);
@@ -769,6 +961,7 @@ static int run_case(const std::string &cas) {
 int main(int argc, char **argv) {
   bsx::Args a = bsx::parse(argc, argv);
   std::string part = a.kv.count("part") ? a.kv["part"] : "pair2";
+  if (part == "prochist" || (a.has_case && a.cas.rfind("ph;", 0) == 0)) return run_prochist(a);
   bool thorough = a.tier == "thorough";
   // batches (shared by the enumeration and by --case batch;...)
   std::vector<Config> pc = configs_pair(thorough), tc = configs_triple(thorough);
